@@ -196,6 +196,10 @@ func checkTiling(c *oracleCtx, src string, extra int) {
 				return
 			}
 			var spanEnd int
+			unterminatedLit := token.Type(-1)
+			if t.Type == token.ILLEGAL && so < len(src) && (src[so] == '"' || src[so] == '\'' || src[so] == '`') {
+				unterminatedLit = token.ILLEGAL // closing delimiter not found (fix cc74d65)
+			}
 			switch t.Type {
 			case token.EOF:
 				if so != len(src) || eo != len(src) {
@@ -203,9 +207,15 @@ func checkTiling(c *oracleCtx, src string, extra int) {
 					return
 				}
 				spanEnd = so
-			case token.STRING, token.RAW_STRING:
+			case token.STRING, token.RAW_STRING, unterminatedLit:
 				q := src[so]
-				if (t.Type == token.RAW_STRING) != (q == '`') || (t.Type == token.STRING && q != '"' && q != '\'') {
+				if t.Type == token.ILLEGAL {
+					// an unterminated literal: it must run to the end of the input (or to a NUL byte)
+					if eo < len(src) && src[eo] != 0 {
+						c.violation("string-end", fmt.Sprintf("token %d %v: an unterminated literal must end at the end of the input", i, t), input)
+						return
+					}
+				} else if (t.Type == token.RAW_STRING) != (q == '`') || (t.Type == token.STRING && q != '"' && q != '\'') {
 					c.violation("string-start", fmt.Sprintf("token %d %v does not start on a quote", i, t), input)
 					return
 				}
